@@ -300,19 +300,21 @@ class _Impl:
             t.to_displacements()
         elif mode == 2:
             t.to_positions()
+        # the file name is the caller's: with the usual extension, another one, several dots, or none
+        cname = ['x.cache', 'run.pickle', 'cachefile', 'traj.v2.pkl', 'x.cache'][case['seed'] % 5]
         before = _rawsig(t)
-        t.to_cache(d / 'x.cache')
+        t.to_cache(d / cname)
         saved_unchanged = _rawsig(t) == before
-        t2 = Trajectory.from_cache(d / 'x.cache')
+        t2 = Trajectory.from_cache(d / cname)
         identical = _rawsig(t2) == before and _sig(t) == _sig(t2) and type(t2) is type(t)
         # the same file is then overwritten with another trajectory: loading it must give the new one
         other = synth.make_traj([[5, 0, 0], [1, 6, 0], [0, 1, 7]], ['Li'] * na, r.random((T + 1, na, 3)), time_step=1e-15, mode='asis')
         want_other = _rawsig(other)
-        other.to_cache(d / 'x.cache')
-        resave_ok = _rawsig(Trajectory.from_cache(d / 'x.cache')) == want_other
+        other.to_cache(d / cname)
+        resave_ok = _rawsig(Trajectory.from_cache(d / cname)) == want_other
         # and what was loaded earlier is an object of its own: converting it does not affect a later load
         _ = t2.displacements
-        again_ok = _rawsig(Trajectory.from_cache(d / 'x.cache')) == want_other
+        again_ok = _rawsig(Trajectory.from_cache(d / cname)) == want_other
         return {'resave_ok': resave_ok, 'again_ok': again_ok, 'identical': identical, 'saved_unchanged': saved_unchanged, 'mode': mode}
 
 
